@@ -129,15 +129,15 @@ func ruleSendRdbResults(w *core.World, r *core.Report) {
 	okLoop := false
 	if recv != nil {
 		if head := core.LoopHeadOf(recv.Block()); head != nil {
-			if iff, ok := head.Instrs[len(head.Instrs)-1].(*ssa.If); ok {
-				if c, ok := core.AsCmp(iff.Cond, true); ok && c.Op == token.LSS {
-					if call, ok := c.Y.(*ssa.Call); ok {
-						if b, ok := call.Call.Value.(*ssa.Builtin); ok && b.Name() == "cap" && isRes(call.Call.Args[0]) {
-							okLoop = true
-						}
-					}
+			isCap := func(v ssa.Value) bool {
+				call, ok := core.Unwrap(v).(*ssa.Call)
+				if !ok {
+					return false
 				}
+				b, ok := call.Call.Value.(*ssa.Builtin)
+				return ok && b.Name() == "cap" && isRes(call.Call.Args[0])
 			}
+			okLoop = loopRunsTimes(head, isCap)
 		}
 	}
 	r.Check(okLoop, "sendRdb/collects-cap-results", f.Pos(), "the collector must receive cap(result channel) values, the channel being sized to the number of goroutines")
@@ -1026,4 +1026,62 @@ func phiStartsFromField(ph *ssa.Phi, typ, field string) bool {
 		return false
 	}
 	return walk(ph)
+}
+
+// loopRunsTimes: the loop headed by head runs exactly N times, N being the
+// value isN recognises: `for i := 0; i < N; i++` or `for k := N; k > 0; k--`.
+func loopRunsTimes(head *ssa.BasicBlock, isN func(ssa.Value) bool) bool {
+	iff, ok := head.Instrs[len(head.Instrs)-1].(*ssa.If)
+	if !ok {
+		return false
+	}
+	c, ok := core.AsCmp(iff.Cond, true)
+	if !ok {
+		return false
+	}
+	// the branch that stays in the loop is the true edge
+	stays := head.Succs[0] != nil && head.Dominates(head.Succs[0]) && blockReaches(head.Succs[0], head)
+	if !stays {
+		return false
+	}
+	ctr, ok := core.Unwrap(c.X).(*ssa.Phi)
+	if !ok || ctr.Block() != head {
+		return false
+	}
+	var init ssa.Value
+	step := int64(0)
+	for i, e := range ctr.Edges {
+		if head.Dominates(head.Preds[i]) { // back edge
+			b, isB := e.(*ssa.BinOp)
+			if !isB || b.X != ssa.Value(ctr) {
+				return false
+			}
+			k, isK := core.ConstInt(b.Y)
+			if !isK {
+				return false
+			}
+			switch b.Op {
+			case token.ADD:
+				step = k
+			case token.SUB:
+				step = -k
+			default:
+				return false
+			}
+		} else {
+			init = e
+		}
+	}
+	if init == nil {
+		return false
+	}
+	switch {
+	case c.Op == token.LSS && step == 1 && isConstInt(0)(init) && isN(c.Y):
+		return true
+	case c.Op == token.GTR && step == -1 && isN(init) && isConstInt(0)(c.Y):
+		return true
+	case c.Op == token.GEQ && step == -1 && isN(init) && isConstInt(1)(c.Y):
+		return true
+	}
+	return false
 }
